@@ -227,7 +227,7 @@ func randB(r *rand.Rand, n int) []byte {
 func TestC19(t *testing.T) {
 	c := rt.Get()
 	// round trips and corruptions of prefix lists through the six wrappers
-	nb := c.N(96, 2400)
+	nb := c.N(400, 8000)
 	for k := 0; k < nb; k++ {
 		batch("lists", k, map[string]any{"batch": k}, func(b *B) {
 			r := c.Rand("c19lists", k)
